@@ -213,6 +213,7 @@ func (s *C14) Run(c *scen.Ctx) {
 		a.apply("add", []endpoint.Endpoint{universe[0]})
 	}
 	final := a.members()
+	defer s.concurrentPhase(c, a, universe)
 	// b reaches the same set by another route
 	switch simrt.Draw(3, "c14.route") {
 	case 0:
@@ -409,4 +410,61 @@ func (s *C14) Check(c *scen.Ctx, res *simrt.Result) {
 	for i, f := range s.fails {
 		c.Fail("C14", s.kinds[i], "selector", "%s", f)
 	}
+}
+
+// concurrentPhase: lookups while one endpoint is being removed and added again. A lookup that
+// overlaps an update goes to an endpoint that is legal before or after that update: a member of
+// the set, with or without the flapping endpoint - never to nobody with a nil error.
+func (s *C14) concurrentPhase(c *scen.Ctx, a *hist, universe []endpoint.Endpoint) {
+	s.mu.Lock()
+	failed := len(s.fails) > 0 || s.panic != ""
+	s.mu.Unlock()
+	if failed || len(a.set) < 2 || simrt.Draw(2, "c14.concurrent") == 0 {
+		return
+	}
+	members := a.members()
+	flap := members[simrt.Draw(len(members), "c14.flap")]
+	legal := map[string]bool{}
+	for _, e := range members {
+		legal[e.Host] = true
+	}
+	c.Count("probe.lookups_during_updates", 1)
+	var wg sync.WaitGroup
+	stop := false
+	for g := 0; g < 2; g++ {
+		g := g
+		wg.Add(1)
+		simrt.GoNamed(fmt.Sprintf("lookup%d", g), func() {
+			defer wg.Done()
+			defer func() {
+				if r := recover(); r != nil {
+					s.mu.Lock()
+					s.panic = fmt.Sprintf("lookup during update: panic: %v", r)
+					s.mu.Unlock()
+				}
+			}()
+			for i := 0; i < 40; i++ {
+				s.mu.Lock()
+				st := stop
+				s.mu.Unlock()
+				if st {
+					return
+				}
+				code := uint32(simrt.Draw(1<<30, "c14.ccode")) * 4
+				ep, err := a.sel.Select(msg{code: code, h: true})
+				if err == nil && !legal[ep.Host] {
+					s.fail("lookup-during-update", "while %s was being removed and added again, a lookup of code %d returned endpoint %q (port %d) without an error: not a member of %v", flap.Host, code, ep.Host, ep.Port, describe(members))
+					return
+				}
+			}
+		})
+	}
+	for i := 0; i < 3; i++ {
+		a.sel.Remove(flap)
+		a.sel.Add(flap)
+	}
+	s.mu.Lock()
+	stop = true
+	s.mu.Unlock()
+	wg.Wait()
 }
